@@ -48,6 +48,10 @@ pub struct Plan {
     /// harness sync points between the flusher's flushes
     pub flusher: Vec<u8>,
     pub abs_start: u64,
+    /// histogram values recorded before the threads start (the storage keeps 64 per block, so one
+    /// flush then hands its values over in several chunks)
+    #[serde(default)]
+    pub hist_prefill: u32,
 }
 
 #[derive(Clone, Debug)]
@@ -121,7 +125,7 @@ impl Scenario for C10Flush {
             );
         }
         let nf = r.range(1, 5);
-        Plan { cfg, updaters, flusher: (0..nf).map(|_| r.below(4) as u8).collect(), abs_start: *r.pick(&[0u64, 1, 5, 1000, u64::MAX / 2]) }
+        Plan { cfg, updaters, flusher: (0..nf).map(|_| r.below(4) as u8).collect(), abs_start: *r.pick(&[0u64, 1, 5, 1000, u64::MAX / 2]), hist_prefill: *r.pick(&[0u32, 0, 0, 0, 63, 65, 130]) }
     }
     fn execute(&self, plan: &Plan, sched: &SchedSpec) -> RunReport {
         let hist: Arc<Mutex<Vec<Ev>>> = Arc::new(Mutex::new(vec![]));
@@ -143,6 +147,16 @@ impl Scenario for C10Flush {
                 length_prefix: false,
             });
             let rec = Arc::new(drv.recorder());
+            if p.hist_prefill > 0 {
+                dsim::passthrough(true);
+                let key = key_for(&Op::HRec).unwrap();
+                for i in 0..p.hist_prefill {
+                    let tag = (1u64 << 40) | (i as u64 + 1);
+                    rec.register_histogram(&key, &MD).record(tag as f64);
+                    h2.lock().unwrap().push(Ev { tid: 0, inv: 0, ret: 0, op: Op::HRec, value: tag, payloads: vec![] });
+                }
+                dsim::passthrough(false);
+            }
             let mut hs = vec![];
             for (ti, ops) in p.updaters.iter().enumerate() {
                 let ops = ops.clone();
